@@ -53,12 +53,15 @@ fn main() {
                 if !is_valid(name, &t) { continue; }
                 valid += 1;
                 if t.n >= 1 { nontrivial += 1; }
-                let r = std::panic::catch_unwind(|| run(name, &t));
+                let r = std::panic::catch_unwind(|| run_all(name, &t));
                 match r {
-                    Ok((Ok(()), ok, end)) => { if ok { accepted += 1; seen_ok_end[end.min(NPOS - 1)] = true; } }
-                    Ok((Err((prop, what)), _, _)) => {
-                        if !fails.iter().any(|(p, _)| *p == prop) {
-                            fails.push((prop, format!("T-FAIL {name} prop={prop} what={what:?} after={valid} tables={} kv={}", describe(&t), tables_kv(&t))));
+                    Ok((all, ok, end)) => {
+                        if all.is_empty() { if ok { accepted += 1; seen_ok_end[end.min(NPOS - 1)] = true; } }
+                        // every label that disagrees on this table; the first table per label is kept
+                        for (prop, what) in all {
+                            if !fails.iter().any(|(p, _)| *p == prop) {
+                                fails.push((prop, format!("T-FAIL {name} prop={prop} what={what:?} after={valid} tables={} kv={}", describe(&t), tables_kv(&t))));
+                            }
                         }
                     }
                     Err(_) => {
